@@ -74,6 +74,7 @@ type Task struct {
 	// pending lock request (ssync)
 	lockWait LockState
 	lockMode int // 1 read, 2 write
+	lockHeld LockState // identity recorded in the held list after the grant (nil: lockWait itself)
 	// held locks (ssync), for the lock-discipline monitor
 	heldL []LockState
 	heldM []int
@@ -662,9 +663,14 @@ func (s *Sim) loop() {
 		if t.lockWait != nil {
 			if t.lockMode != 0 {
 				t.lockWait.Grant(t.lockMode)
-				t.heldL = append(t.heldL, t.lockWait)
+				held := t.lockWait
+				if t.lockHeld != nil {
+					held = t.lockHeld
+				}
+				t.heldL = append(t.heldL, held)
 				t.heldM = append(t.heldM, t.lockMode)
 			}
+			t.lockHeld = nil
 			// (mode 0: a pipe or process condition - nothing is held afterwards)
 			t.lockWait = nil
 		}
@@ -809,6 +815,34 @@ func LockAcquire(l LockState, mode int, site string) bool {
 		return false
 	}
 	t.lockWait = l
+	t.lockMode = mode
+	s.Stats.LockWaits++
+	s.mu.Unlock()
+	RaceEnable()
+	s.park(t, site)
+	return true
+}
+
+// LockAcquireVia is LockAcquire with a per-request condition: the scheduler asks cond whether the
+// request can be granted (and tells it when it is), and records held as the lock the task then holds.
+//
+//go:norace
+func LockAcquireVia(cond, held LockState, mode int, site string) bool {
+	s := cur.Load()
+	if s == nil {
+		return false
+	}
+	g := goid()
+	RaceDisable()
+	s.mu.Lock()
+	t := s.taskOf(g)
+	if t == nil {
+		s.mu.Unlock()
+		RaceEnable()
+		return false
+	}
+	t.lockWait = cond
+	t.lockHeld = held
 	t.lockMode = mode
 	s.Stats.LockWaits++
 	s.mu.Unlock()
